@@ -776,3 +776,176 @@ pub fn gen_history(rng: &mut Rng, c: &Cfg, p: &HistProfile) -> Vec<Op> {
 pub fn kind_of(c: &Cfg) -> Kind {
     c.kind
 }
+
+// ------------------------------------------------------------------------------------------
+// lock-step comparison helpers (M-TWIN)
+
+pub fn bits_eq<T: Smp>(a: &[T], b: &[T]) -> bool {
+    a.len() == b.len() && a.iter().zip(b.iter()).all(|(x, y)| x.bits() == y.bits() || (x.isnan() && y.isnan()))
+}
+
+/// First difference between two step results (bit-exact outputs, counts, getters); None if equal.
+pub fn diff_steps<T: Smp>(a: &StepOut<T>, b: &StepOut<T>, compare_nch: bool) -> Option<String> {
+    if a.res != b.res {
+        return Some(format!("result {:?} vs {:?}", a.res, b.res));
+    }
+    let ga = (a.before, a.after);
+    let gb = (b.before, b.after);
+    let strip = |g: Getters| if compare_nch { g } else { Getters { nch: 0, ..g } };
+    if strip(ga.0) != strip(gb.0) {
+        return Some(format!("getters before the call {:?} vs {:?}", ga.0, gb.0));
+    }
+    if strip(ga.1) != strip(gb.1) {
+        return Some(format!("getters after the call {:?} vs {:?}", ga.1, gb.1));
+    }
+    if a.out.len() != b.out.len() {
+        return Some(format!("{} vs {} output channels", a.out.len(), b.out.len()));
+    }
+    for ch in 0..a.out.len() {
+        if let Some(d) = diff_chan(&a.out[ch], &b.out[ch]) {
+            return Some(format!("channel {}: {}", ch, d));
+        }
+    }
+    None
+}
+
+pub fn diff_chan<T: Smp>(a: &[T], b: &[T]) -> Option<String> {
+    if a.len() != b.len() {
+        return Some(format!("{} vs {} frames", a.len(), b.len()));
+    }
+    for (j, (x, y)) in a.iter().zip(b.iter()).enumerate() {
+        if !(x.bits() == y.bits() || (x.isnan() && y.isnan())) {
+            return Some(format!("frame {} differs: {:?} vs {:?}", j, x, y));
+        }
+    }
+    None
+}
+
+// ------------------------------------------------------------------------------------------
+// malformed calls (C13)
+
+#[derive(Clone, Debug, PartialEq)]
+pub enum Bad {
+    /// number of input channels = given value (!= nch)
+    InChannels(usize),
+    OutChannels(usize),
+    /// active input channel `ch` has `need - short` frames (short >= 1)
+    InShort { ch: usize, short: usize },
+    OutShort { ch: usize, short: usize },
+    /// mask of the given length (!= nch)
+    MaskLen(usize),
+}
+
+#[derive(Clone, Debug)]
+pub struct BadCall {
+    pub bad: Bad,
+    /// through process() instead of process_into_buffer (input / mask shapes only)
+    pub via_process: bool,
+}
+
+impl BadCall {
+    pub fn json(&self) -> J {
+        J::obj().with("op", J::s("malformed")).with("shape", J::s(&format!("{:?}", self.bad))).with("via_process", J::b(self.via_process))
+    }
+}
+
+pub fn gen_bad(rng: &mut Rng, nch: usize) -> BadCall {
+    let bad = match rng.ui(0, 4) {
+        0 => {
+            let n = if rng.bool() && nch > 0 { rng.ui(0, nch - 1) } else { nch + rng.ui(1, 3) };
+            Bad::InChannels(n)
+        }
+        1 => {
+            let n = if rng.bool() && nch > 0 { rng.ui(0, nch - 1) } else { nch + rng.ui(1, 3) };
+            Bad::OutChannels(n)
+        }
+        2 => Bad::InShort { ch: rng.ui(0, nch - 1), short: if rng.bool() { 1 } else { rng.ui(1, 1 << 20) } },
+        3 => Bad::OutShort { ch: rng.ui(0, nch - 1), short: if rng.bool() { 1 } else { rng.ui(1, 1 << 20) } },
+        _ => {
+            let n = if rng.bool() && nch > 0 { rng.ui(0, nch - 1) } else { nch + rng.ui(1, 3) };
+            Bad::MaskLen(n)
+        }
+    };
+    let via_process = matches!(bad, Bad::InChannels(_) | Bad::InShort { .. } | Bad::MaskLen(_)) && rng.chance(0.3);
+    BadCall { bad, via_process }
+}
+
+/// Outcome of a malformed call: list of C13 clause violations (empty = behaved as documented),
+/// and whether the shape was applicable at this point of the history.
+pub fn do_bad_call<T: Smp>(run: &mut Runner<T>, bc: &BadCall) -> (bool, Vec<(&'static str, String)>) {
+    let g = run.drv.getters();
+    let nch = run.cfg.channels;
+    let mut v = Vec::new();
+    let k = 0x777u32;
+    let mut n_in_ch = nch;
+    let mut n_out_ch = nch;
+    let mut in_len = vec![g.in_next; nch.max(8) + 4];
+    let mut out_len = vec![g.out_next; nch.max(8) + 4];
+    let mut mask: Option<Vec<bool>> = None;
+    let expect: String;
+    match &bc.bad {
+        Bad::InChannels(n) => {
+            n_in_ch = *n;
+            expect = format!("WrongNumberOfInputChannels{{expected:{},actual:{}}}", nch, n);
+        }
+        Bad::OutChannels(n) => {
+            n_out_ch = *n;
+            expect = format!("WrongNumberOfOutputChannels{{expected:{},actual:{}}}", nch, n);
+        }
+        Bad::InShort { ch, short } => {
+            if g.in_next == 0 {
+                return (false, v);
+            }
+            let s = (*short).min(g.in_next).max(1);
+            in_len[*ch] = g.in_next - s;
+            expect = format!("InsufficientInputBufferSize{{channel:{},expected:{},actual:{}}}", ch, g.in_next, g.in_next - s);
+        }
+        Bad::OutShort { ch, short } => {
+            if g.out_next == 0 {
+                return (false, v);
+            }
+            let s = (*short).min(g.out_next).max(1);
+            out_len[*ch] = g.out_next - s;
+            expect = format!("InsufficientOutputBufferSize{{channel:{},expected:{},actual:{}}}", ch, g.out_next, g.out_next - s);
+        }
+        Bad::MaskLen(n) => {
+            mask = Some(vec![true; *n]);
+            expect = format!("WrongNumberOfMaskChannels{{expected:{},actual:{}}}", nch, n);
+        }
+    }
+    let wi: Vec<Vec<T>> = (0..n_in_ch).map(|ch| (0..in_len[ch]).map(|j| run.sample(ch % nch.max(1), run.pos + j as u64)).collect()).collect();
+    let mut wo: Vec<Vec<T>> = (0..n_out_ch).map(|ch| vec![T::sentinel(k); out_len[ch]]).collect();
+    let m = mask.as_deref();
+    let drv = &mut run.drv;
+    let via = bc.via_process;
+    let r = crate::mon::guarded(|| {
+        if via {
+            drv.proc(&wi, m).map(|v| (0usize, v.first().map(|c| c.len()).unwrap_or(0)))
+        } else {
+            drv.pib(&wi, &mut wo, m)
+        }
+    });
+    match r {
+        Err(p) => v.push(("panic_on_malformed", format!("{:?}{}: panicked: {}", bc.bad, if via { " via process()" } else { "" }, p))),
+        Ok(Ok((i, o))) => v.push(("ok_on_malformed", format!("{:?}{}: returned Ok(({},{})), expected Err {}", bc.bad, if via { " via process()" } else { "" }, i, o, expect))),
+        Ok(Err(e)) => {
+            let got = err_repr(&e);
+            if got != expect {
+                v.push(("wrong_error", format!("{:?}{}: returned {}, expected {}", bc.bad, if via { " via process()" } else { "" }, got, expect)));
+            }
+        }
+    }
+    if !via {
+        for (ch, b) in wo.iter().enumerate() {
+            if b.iter().any(|s| !s.is_sentinel(k)) {
+                v.push(("write_on_err", format!("{:?}: output channel {} was written by the failing call", bc.bad, ch)));
+                break;
+            }
+        }
+    }
+    let ga = run.drv.getters();
+    if ga != g {
+        v.push(("getters_changed", format!("{:?}: getters changed by the failing call: {:?} -> {:?}", bc.bad, g, ga)));
+    }
+    (true, v)
+}
